@@ -4,8 +4,7 @@ import Dashu.Model.Text.Bytes
   Driver of group `text` (C07): integer formatting, parsing, byte and chunk encodings.
   For every case the *required* result (specification side: `digits`/`pad_integral`/grammar/
   positional bytes) is printed; beside it the mirrored model is evaluated and a difference is
-  flagged as ` !model-spec-mismatch` unless the input lies in one of the recorded defect classes
-  (where the model mirrors the defective code and the spec says what the property requires).
+  flagged as ` !model-spec-mismatch` (cannot happen where model = spec is a checked theorem).
 -/
 namespace Dashu.Driver.Text
 open Dashu.IO Dashu.Driver Dashu.Model.Text
@@ -60,13 +59,6 @@ def resIntRadix (r : Except ParseError (Int × Nat)) : String :=
   | .ok (v, d) => "ok " ++ intToHex v ++ " d:" ++ toString d
   | .error e => "err " ++ e.name
 
-/-- underscore-only body after sign (and prefix): the recorded grammar finding -/
-def usOnly (signed : Bool) (dflt : Option Nat) (s : List Nat) : Bool :=
-  let b := (splitSign signed s).2
-  match dflt with
-  | none => underscoreOnly b
-  | some d => underscoreOnly (splitPrefix d b).2
-
 def rtOp (W : Nat) (signed : Bool) (z : Int) (r : Nat) : String :=
   if !validRadix r then "panic InvalidRadix"
   else
@@ -89,26 +81,22 @@ def dispatch : Dispatch := fun W op args =>
   | "i.fmt", [t, fa, fl, w, n] => do fmtOp W t fa fl w (← parseInt n)
   | "u.parse", [s, r] => do
     let s ← parseStr s; let r ← parseDecNat r
-    pure (flag (resInt (parseRadix W false s r)) (resInt (parseRadixSpec false s r)) (usOnly false none s))
+    pure (flag (resInt (parseRadix W false s r)) (resInt (parseRadixSpec false s r)) false)
   | "i.parse", [s, r] => do
     let s ← parseStr s; let r ← parseDecNat r
-    pure (flag (resInt (parseRadix W true s r)) (resInt (parseRadixSpec true s r)) (usOnly true none s))
+    pure (flag (resInt (parseRadix W true s r)) (resInt (parseRadixSpec true s r)) false)
   | "u.parse_prefix", [s] => do
     let s ← parseStr s
-    pure (flag (resIntRadix (parseDefault W false s 10)) (resIntRadix (parseDefaultSpec false s 10)) (usOnly false (some 10) s))
+    pure (flag (resIntRadix (parseDefault W false s 10)) (resIntRadix (parseDefaultSpec false s 10)) false)
   | "i.parse_prefix", [s] => do
     let s ← parseStr s
-    pure (flag (resIntRadix (parseDefault W true s 10)) (resIntRadix (parseDefaultSpec true s 10)) (usOnly true (some 10) s))
+    pure (flag (resIntRadix (parseDefault W true s 10)) (resIntRadix (parseDefaultSpec true s 10)) false)
   | "u.parse_default", [s, r] => do
     let s ← parseStr s; let r ← parseDecNat r
-    let used := (splitPrefix r (splitSign false s).2).1
-    if !validRadix used then pure (resIntRadix (parseDefaultSpec false s r))
-    else pure (flag (resIntRadix (parseDefault W false s r)) (resIntRadix (parseDefaultSpec false s r)) (usOnly false (some r) s))
+    pure (flag (resIntRadix (parseDefault W false s r)) (resIntRadix (parseDefaultSpec false s r)) false)
   | "i.parse_default", [s, r] => do
     let s ← parseStr s; let r ← parseDecNat r
-    let used := (splitPrefix r (splitSign true s).2).1
-    if !validRadix used then pure (resIntRadix (parseDefaultSpec true s r))
-    else pure (flag (resIntRadix (parseDefault W true s r)) (resIntRadix (parseDefaultSpec true s r)) (usOnly true (some r) s))
+    pure (flag (resIntRadix (parseDefault W true s r)) (resIntRadix (parseDefaultSpec true s r)) false)
   | "u.rt", [n, r] => do
     let n ← parseNat n; let r ← parseDecNat r
     pure (rtOp W false n r)
@@ -124,10 +112,10 @@ def dispatch : Dispatch := fun W op args =>
     pure (flag ("ok " ++ natBytesToStr (toBeBytes W n)) ("ok " ++ natBytesToStr (leBytesSpec n).reverse) false)
   | "i.le", [n] => do
     let z ← parseInt n
-    pure (flag ("ok " ++ natBytesToStr (ibigToLeBytes W z)) ("ok " ++ natBytesToStr (signedLeBytesSpec z)) (signByteDefect W z))
+    pure (flag ("ok " ++ natBytesToStr (ibigToLeBytes W z)) ("ok " ++ natBytesToStr (signedLeBytesSpec z)) false)
   | "i.be", [n] => do
     let z ← parseInt n
-    pure (flag ("ok " ++ natBytesToStr (ibigToBeBytes W z)) ("ok " ++ natBytesToStr (signedLeBytesSpec z).reverse) (signByteDefect W z))
+    pure (flag ("ok " ++ natBytesToStr (ibigToBeBytes W z)) ("ok " ++ natBytesToStr (signedLeBytesSpec z).reverse) false)
   | "u.from_le", [s] => do
     let b ← parseStr s
     pure (flag ("ok " ++ natToHex (fromLeBytes W b)) ("ok " ++ natToHex (ofLeBytesSpec b)) false)
@@ -147,13 +135,15 @@ def dispatch : Dispatch := fun W op args =>
     let model := match toChunks W n k with
       | .ok cs => "ok " ++ chunksStr cs
       | .error .chunkBitsZero => "panic ChunkBitsZero"
-      | .error (.sliceIndex e l) => "panic SliceIndex(" ++ toString e ++ "," ++ toString l ++ ")"
-    pure (flag model spec (chunkDefect W n k))
+    pure (flag model spec false)
   | "u.from_chunks", k :: cs => do
     let k ← parseDecNat k
     let cs ← cs.mapM parseNat
     let spec := if k = 0 then "panic ChunkBitsZero" else "ok " ++ natToHex (ofChunksSpec k cs)
-    pure (flag ("ok " ++ natToHex (fromChunks k cs)) spec (k == 0))
+    let model := match fromChunks k cs with
+      | .ok v => "ok " ++ natToHex v
+      | .error .chunkBitsZero => "panic ChunkBitsZero"
+    pure (flag model spec false)
   | _, _ => none
 
 end Dashu.Driver.Text
